@@ -24,8 +24,13 @@ import Lumina.Gen.C38
     newhead h=<height>                 header-sub announces H[h]
     disconnect                         all peers gone
     drain budget=B                     answer honestly until nothing is outstanding
+    prune h=<height>|tail              the pruner removes a stored height (`Store::remove_height`) — only
+                                       when C35's per-height condition holds (stored, outside the pruning
+                                       window, and outside the sampling window or both neighbours synced),
+                                       otherwise `refused`; `tail` = lowest stored height
     state | reset
-  state line: st=<stored ranges> head=<subjective head, 0 = none> out=<origin+amount,…> off=<stored heights not on H>
+  state line: st=<stored ranges> pr=<pruned ranges> head=<subjective head, 0 = none> out=<origin+amount,…>
+              ph=<1 connected_event_loop | 0> off=<stored heights not on H>
 -/
 open Lumina.Util Lumina.Model.Ranges
 open Lumina.Model.Store (Hdr)
@@ -85,7 +90,8 @@ def showState (st : St) : String :=
   let out := outstanding st
   let outs := if out.isEmpty then "-" else ",".intercalate (out.map (fun r => s!"{r.1}+{r.2}"))
   let head := match st.s.head with | some h => h | none => 0
-  s!"st={showRanges st.s.store.storedRanges} head={head} out={outs} off=-"
+  let ph := if st.s.phase == .connected then 1 else 0
+  s!"st={showRanges st.s.store.storedRanges} pr={showRanges st.s.store.prunedRanges} head={head} out={outs} ph={ph} off=-"
 
 /-- apply one worker event; a scheduled request starts a new header session -/
 def apply (st : St) (ev : Ev) : St :=
@@ -152,6 +158,14 @@ def answer (st : St) (idx : Nat) (kind : String) : St :=
       else { st with sess := some ss' }
   | _, _ => st
 
+def syncedB (a : Lumina.Spec.C19.AbsStore) (h : Nat) : Bool := a.stored h || a.isPruned h
+
+/-- C35's per-height removal condition (`Proofs/ComposeSyncerPrune.lean` `PruneSafe`), decidable -/
+def pruneSafe (st : St) (h : Nat) : Bool :=
+  let a := st.s.store
+  let c := (env st).chain
+  a.stored h && c.oldP h && (c.oldS h || (syncedB a (h - 1) && syncedB a (h + 1)))
+
 def drain (st : St) : Nat → Nat → St × Nat
   | 0, k => (st, k)
   | fuel + 1, k => if (outstanding st).isEmpty then (st, k) else drain (answer st 0 "h") fuel (k + 1)
@@ -197,6 +211,18 @@ def step (st : St) (line : String) : St × String :=
     match natArg? ws "budget" with
     | some b => let (st', k) := drain st b 0; (st', s!"{showState st'} steps={k}")
     | none => (st, "bad-op")
+  | "prune" :: _ =>
+    let h? : Option Nat := match arg? ws "h" with
+      | some "tail" => st.s.store.storedRanges.head?.map (·.1)
+      | some v => v.toNat?
+      | none => none
+    match h? with
+    | some h =>
+      if pruneSafe st h then
+        let st' := { st with s := { st.s with store := (st.s.store.remove h).1 } }
+        (st', s!"pruned {showState st'}")
+      else (st, s!"refused {showState st}")
+    | none => (st, s!"refused {showState st}")
   | "state" :: _ => (st, showState st)
   | _ => (st, "bad-op")
 
@@ -224,12 +250,19 @@ def spec (st : St) (op : String) (obs : String) : String :=
       else
         match ws with
         | "drain" :: _ =>
-          -- convergence is only demanded when the slow-sync gate cannot hold the syncer back
-          -- (pruning window >= sampling window) and the drain ended with nothing outstanding
-          if st.pw ≥ st.sw && arg? os "out" == some "-" && st.s.phase == .connected then
-            if Lumina.Spec.C38.specConverged stored (st.n + 1 - st.sw) head then "specok"
-            else "specfail C38/not-converged a height of the sampling window up to the head is missing although honest peers answered everything"
-          else "specok"
+          -- every verdict below is about what the IMPLEMENTATION reported (`out=`, `ph=`, `st=`, `head=`)
+          if arg? os "out" != some "-" then
+            -- the budget (hundreds of honest answers for a 160-header chain) ran out with requests
+            -- still outstanding: the syncer keeps asking without converging
+            "specfail C38/drain-budget-exhausted requests still outstanding after the whole budget of honest answers"
+          else if arg? os "ph" != some "1" then
+            "specskip"   -- not connected: nothing is being synced, convergence is not demanded
+          else if st.pw < st.sw then
+            -- pruning window < sampling window: the slow-sync throttle waits for the daser, which
+            -- is not part of this rig; convergence is not demanded in that regime (not proved either)
+            "specskip"
+          else if Lumina.Spec.C38.specConverged stored (st.n + 1 - st.sw) head then "specok"
+          else "specfail C38/not-converged a height of the sampling window up to the head is missing although honest peers answered everything"
         | _ => "specok"
     | _, _, _ => if os.head? == some "bad-op" then "specskip" else "specfail C38/unparsed"
 
